@@ -18,6 +18,7 @@ bool LoadScenario(const js::J& j, Scenario* s, string* err) {
   s->family = j["family"].str();
   for (auto& kv : j["files"].o) s->files[kv.first] = kv.second.s;
   s->dirs = j["dirs"].strs();
+  s->builddir = j["builddir"].str();
   s->depth = (int)j["depth"].num(2);
   s->dev_bound = (int)j["dev_bound"].num(-1);
   for (auto& t : j["tags"].a) s->tags.insert(t.s);
